@@ -7,7 +7,7 @@ from lib import cstr, cZ, cbool, clist, copt
 NS = json.loads((lib.REPO / "src/wikitextprocessor/data/en/namespaces.json").read_text())
 NS_BY_ID = {v["id"]: (k, v) for k, v in NS.items()}
 USED_NS = [0, 10, 828, 100, 4]
-BASES = ["Foo", "foo", "Foo bar", "Bar/x", "Xü y", "q"]
+BASES = ["Foo", "foo", "Foo bar", "Bar/x", "Xü y", "q", "R:Webster", "a:b c"]
 
 
 def ns_table_coq():
